@@ -726,6 +726,7 @@ pub(crate) fn m_hard_wrap() {
     let width: usize = kani::any();
     let line_len: usize = kani::any();
     let allow_overflow: bool = kani::any();
+    let markers: bool = kani::any();
     let npieces: u8 = kani::any();
     kani::assume(width <= 4096 && line_len <= width && npieces <= 4);
     let mut wb: WrappedBlock<u8> = WrappedBlock::new(width, false, allow_overflow);
@@ -733,7 +734,13 @@ pub(crate) fn m_hard_wrap() {
         wb.line.push_str(TaggedString { s: "x".repeat(line_len), tag: 1 });
     }
     let mut all = String::new();
+    let mut want_marks: Vec<(String, usize)> = Vec::new();   // marker name, number of word characters before it
     for i in 0..npieces {
+        if markers && i > 0 {
+            let name = format!("m{}", i);
+            want_marks.push((name.clone(), all.chars().count()));
+            wb.word.push(TaggedLineElement::FragmentStart(name));
+        }
         let n: u8 = kani::any();
         kani::assume(n <= 4);
         let mut piece = String::new();
@@ -764,6 +771,18 @@ pub(crate) fn m_hard_wrap() {
             }
             got.extend(wb.line.chars());
             assert!(got == format!("{}{}", "x".repeat(line_len), all), "characters lost, duplicated or reordered: {:?} from {:?}", got, all);
+            // fragment markers of the word are kept, each after the characters that preceded it
+            let mut got_marks: Vec<(String, usize)> = Vec::new();
+            let mut seen = 0usize;
+            for l in wb.text.iter().chain(std::iter::once(&wb.line)) {
+                for e in l.iter() {
+                    match e {
+                        TaggedLineElement::Str(ts) => seen += ts.s.chars().count(),
+                        TaggedLineElement::FragmentStart(n) => got_marks.push((n.clone(), seen.saturating_sub(line_len))),
+                    }
+                }
+            }
+            assert!(got_marks == want_marks, "fragment markers of the word lost or misplaced: {:?}, want {:?}", got_marks, want_marks);
             assert!(wb.word.is_empty(), "word buffer not emptied");
         }
     }
